@@ -419,6 +419,10 @@ def refused_unit_grid():
                     yield "srv1_short_for_fields", {"sub": sub, "sw": sw, "cw": cw, "have": have}
     for n in range(0, 6):
         yield "tc_short_length_field", {"n": n}
+    for resp in (0, 1):
+        for two in (0, 1):
+            for cut in range(1, 22):
+                yield "tlv_short_for_inner_fields", {"resp": resp, "two": two, "cut": cut}
 
 
 def k_refused_unit(ctx, what, seed, spec=None):
@@ -434,6 +438,7 @@ def k_refused_unit(ctx, what, seed, spec=None):
     r = random.Random(f"refused/{what}/{seed}")
     case = {"k": "refused_unit", "what": what, "seed": seed, "spec": spec}
     ctx.case(f"refused_unit/{what}", (seed, json.dumps(spec, sort_keys=True)), sample=case)
+    forced = []                                                  # suffixes every case of a family sees besides the sampled classes
     if what in ("tm_short_for_timestamp", "srv17_short_for_timestamp"):
         tsl = spec["tsl"] if spec else r.choice((7, 12, 16))
         have = spec["have"] if spec else r.randrange(0, tsl)                               # timestamp + source data octets really present: fewer than the reader's timestamp
@@ -461,6 +466,22 @@ def k_refused_unit(ctx, what, seed, spec=None):
             body = rand_bytes(r, spec["have"] if spec else r.randrange(0, fss))
         u = R.assemble(cfg, 1, 0, body, segmeta=segmeta)
         dec = X.FileDataPdu.unpack if r.random() < 0.5 else X.PduFactory.from_raw
+    elif what == "tlv_short_for_inner_fields":
+        # a filestore request / response TLV whose length octet stops inside its own file-name / message LVs (the octets that were
+        # cut off follow in the buffer, as they would in a PDU whose option list was damaged)
+        from spacepackets.cfdp.tlv import FileStoreRequestTlv, FileStoreResponseTlv
+        two = spec["two"] if spec else r.getrandbits(1)
+        resp = spec["resp"] if spec else r.getrandbits(1)
+        n1, n2, msg = (bytes(r.choice(b"abcxyz./_0") for _ in range(r.randrange(1, 6))) for _ in range(3))
+        value = bytes([((2 if two else 0) << 4) | (0 if not resp else r.choice((0, 1, 2) if two else (0, 1)))]) + bytes([len(n1)]) + n1
+        if two:
+            value += bytes([len(n2)]) + n2
+        if resp:
+            value += bytes([len(msg)]) + msg
+        cut = min(spec["cut"], len(value)) if spec else r.randrange(1, len(value) + 1)
+        u = bytes([1 if resp else 0, len(value) - cut]) + value[:len(value) - cut]
+        forced = [value[len(value) - cut:], value[len(value) - cut:] + b"\x06\x02\x01\x02"]
+        dec = (FileStoreResponseTlv if resp else FileStoreRequestTlv).unpack
     else:                                                        # directive PDUs whose data field is shorter than the directive's fixed fields
         if spec:                                                 # enumerated: kind x CRC x file-size class x every too-short length
             kind = spec["kind"]
@@ -487,8 +508,7 @@ def k_refused_unit(ctx, what, seed, spec=None):
         ctx.ev("refusal_independent_of_what_follows")
         return ctx.fail("refusal_independent_of_what_follows", "undocumented_error_for_a_unit_too_short_for_its_fields", f"{what}/{exc_sig(base)}", case, unit=u, error=repr(base))
     other = reg()[r.choice(list(reg()))](r)[0]
-    for cls in r.sample(SUFFIX_CLASSES, 6):
-        sfx = make_suffix(r, cls, u, other)
+    for sfx in forced + [make_suffix(r, cls, u, other) for cls in r.sample(SUFFIX_CLASSES, 6)]:
         ok2, got = attempt(dec, u + sfx)
         ctx.ev("refusal_independent_of_what_follows")
         if ok2:
@@ -519,7 +539,7 @@ def run(ctx):
         ns = [r.choice(names)] * k if r.random() < 0.4 else [r.choice(names) for _ in range(k)]
         k_back_to_back(ctx, ns, ctx.seed * 1_000_003 + ctx.shard[0] * 50_021 + j)
     for j in range(ctx.n(300, 20_000)):
-        for what in ("tm_short_for_timestamp", "srv17_short_for_timestamp", "srv1_short_for_fields", "tc_short_length_field", "pdu_short_for_directive", "fd_short_for_offset"):
+        for what in ("tm_short_for_timestamp", "srv17_short_for_timestamp", "srv1_short_for_fields", "tc_short_length_field", "pdu_short_for_directive", "fd_short_for_offset", "tlv_short_for_inner_fields"):
             k_refused_unit(ctx, what, ctx.seed * 1_000_003 + ctx.shard[0] * 50_021 + j)
     for gi, (what, spec) in enumerate(refused_unit_grid()):
         i += 1
@@ -527,7 +547,8 @@ def run(ctx):
             k_refused_unit(ctx, what, ctx.seed * 1_000_003 + gi, spec=spec)
     ctx.exhaustive.append("units too short for their reader: 7 directive kinds x CRC x file-size class x every length below the minimum; File Data x CRC x "
                           "file-size class x segment metadata lengths x lengths short of the offset; PUS TM / service 17 x timestamp length x every shorter "
-                          "length; service 1 x subservice x step / code widths x every shorter length; TC length field 0..5")
+                          "length; service 1 x subservice x step / code widths x every shorter length; TC length field 0..5; filestore request / "
+                          "response TLVs x one / two names x every length octet that stops inside the value, followed by the octets cut off")
     preps = 8 if ctx.quick else 300
     for kind in C.KINDS8:
         for crc in (0, 1):
